@@ -62,9 +62,9 @@ class UDSServer(ABC):
     def default_response_if_service_not_supported(
         self, request: service.UDSRequest
     ) -> service.NegativeResponse | None:
-        assert self.state.session in self.supported_services, "Virtual ECU in unsupported session"
-
-        if request.service_id not in self.supported_services[self.state.session]:
+        # The active session may be one the model does not offer (e.g. when the sub-function check
+        # is disabled and a session change to it was accepted): it simply offers no service.
+        if request.service_id not in self.supported_services.get(self.state.session, {}):
             if any(request.service_id in s for s in self.supported_services.values()):
                 nrc = UDSErrorCodes.serviceNotSupportedInActiveSession
             else:
@@ -106,8 +106,6 @@ class UDSServer(ABC):
     def default_response_if_sub_function_not_supported(
         self, request: service.UDSRequest
     ) -> service.NegativeResponse | None:
-        assert self.state.session in self.supported_services, "Virtual ECU in unsupported session"
-
         # The standards explicitly excludes RoutineControl for this check because the availability of a sub function
         # depends on the routineIdentifier
         if (
